@@ -657,6 +657,8 @@ func newVoterecords(
 	vr.learnExpels = learnExpels
 	vr.isc = isSuffrageConfirm
 	vr.vp = nil
+	vr.countAfter = time.Time{}
+	vr.lastthreshold = 0
 
 	switch {
 	case log == nil:
